@@ -771,7 +771,7 @@ def check_C12(ctx):
             want = open(a).read()
             # Go map iteration order needs several runs to show: 12 on the fixed feature set, 4 elsewhere
             for k in range(12 if pkg in F.fixed_schemas() else 4):
-                driver_out(ctx, ["genrun", plugin, os.path.join(d2, pkg), "paths=source_relative", "%s=%s.proto" % (os.path.join(res["src"], pkg + ".proto"), pkg)])
+                driver_out(ctx, ["genrun", plugin, os.path.join(d2, pkg), "paths=source_relative,field_access=true", "%s=%s.proto" % (os.path.join(res["src"], pkg + ".proto"), pkg)])
                 det_runs += 1
                 b = os.path.join(d2, pkg, pkg + ".pico.go")
                 if not (os.path.exists(b) and open(b).read() == want):
@@ -803,11 +803,12 @@ def check_C12(ctx):
         theorems=["C12_always_selection", "C12_boundary_optional_enum", "C12_checked_in_total", "C12_encode_correct"],
         suites=lambda c: [("msg", ["msg", c.seed, _n(c, 5000, 40000), ".proto:"], res["driver"]), ("decv", ["decv", c.seed, _n(c, 4000, 20000), ".proto:"], res["driver"])],
         filter=flt,
-        prop={"msg": lambda r: r["impl"] != "PANIC" and all(r["flags"].get(k) in ("ok", "na") for k in ("c01", "c03", "c06", "c08o", "c08r")),
+        prop={"msg": lambda r: r["impl"] != "PANIC" and all(r["flags"].get(k) in ("ok", "na") for k in ("c01", "c03", "c06", "c08o", "c08r")) and r["flags"].get("get", "ok") == "ok",
               "dec": lambda r: r["ist"] == "ok" and r["flags"].get("c02") == "ok"},
         tie={"msg": tie_bytes, "dec": tie_dec_val}, spec={"msg": spec_msg, "dec": spec_dec}, nontrivial=nontrivial_any, shrink_flag="bad",
         rule="schemas: fixed set covering every generator branch (all 180 maps, recursion, optional x 15 kinds, oneof x 15 kinds + enum + message, out-of-order and extreme field numbers, "
-             "picoconv casts in all four shapes, capture) + grammar-drawn schemas, run through the real plugin, compiled, and driven like the checked-in types; "
+             "picoconv casts in all four shapes, capture, nested declarations) + grammar-drawn schemas, run through the real plugin with and without field_access=true (both outputs compile, the second is the first minus the accessors), "
+             "driven like the checked-in types, every generated accessor compared with the field it reads (also on a nil receiver); "
              "boundary schemas (optional enum, map<_,message/enum>, capture with number >= 64) must be rejected by generator and model alike")
     rc = run_message_property_with(ctx, spec, pre_problems=obligations_bad)
     return rc
